@@ -1,4 +1,5 @@
 import WS.Model.Pool
+import WS.Props.C07Window
 /-
   C07 — Connections are isolated: a pooled inflater is never used by a connection that does not own
   it (model of the reference fields that can outlive a Put; the byte-level provenance of payloads
